@@ -45,8 +45,8 @@ class ThreadEngine(Engine):
         {'progs': [[['call', 0, ''], ['call', 1, 's1'], ['read']], [['call', 0, 's2'], ['call', 1, 's1/s2']]],
          'schedule': [0] * k + [1] * 120 + [0] * 200} for k in range(0, 70, 2)
     ] + [
-        {'progs': [[['call', 0, 's1', 'pq'], ['read']], [['call', 0, 's1', '']]],
-         'schedule': [0] * k + [1] * 120 + [0] * 300} for k in range(0, 90, 2)
+        {'progs': [[['call', 0, 's1', 'p'], ['read']], [['call', 0, 's1', '']]],
+         'schedule': [0] * k + [1] * 120 + [0] * 300} for k in range(0, 120, 2)
     ] + [
         {'progs': [[['singleton', 'sa'], ['read']], [['call', 0, 's2'], ['singleton', 'sa']]],
          'schedule': [0] * k + [1] * 120 + [0] * 200} for k in range(0, 30, 3)
